@@ -380,7 +380,10 @@ func Run(c Config, fns []func(), abort func(*Result)) *Result {
 
 func pickFirst() *task {
 	if cfg.Replay {
-		if d, ok := replay[[2]uint64{^uint64(0), 0}]; ok && d.To < len(tasks) {
+		if d, ok := replay[[2]uint64{^uint64(0), 0}]; ok && d.To >= 0 && d.To < len(tasks) {
+			if d.To != 0 {
+				decided = append(decided, Decision{T: -1, L: 0, To: d.To, Forced: true})
+			}
 			return tasks[d.To]
 		}
 		return tasks[0]
